@@ -96,10 +96,10 @@ PROPS = {
                 "cases compare --aggregate with the model and spec, half re-derive the table from the real per-sequence output of the same input",
     },
     "C14": {
-        "extra_imports": ["Gofasta.Lemmas.RegionEquiv", "Gofasta.Lemmas.GffRoundTrip"],
-        "extra_theorems": ["Gofasta.Lemmas.RegionEquiv.genbank_region'", "Gofasta.Lemmas.RegionEquiv.genbank_region", "Gofasta.Lemmas.RegionEquiv.gff_region", "Gofasta.Lemmas.RegionEquiv.region_equiv", "Gofasta.Lemmas.RegionEquiv.fields_equiv", "Gofasta.Lemmas.RegionEquiv.oriented_of_asc", "Gofasta.Lemmas.RegionEquiv.faithful_long", "Gofasta.Lemmas.RegionEquiv.oriented_of_asc_faithful", "Gofasta.Lemmas.RegionEquiv.genbank_annotation", "Gofasta.Lemmas.RegionEquiv.gff_annotation", "Gofasta.Lemmas.RegionEquiv.annotation_equiv", "Gofasta.Lemmas.RegionEquiv.codes_perm", "Gofasta.Lemmas.RegionEquiv.variants_perm", "Gofasta.Lemmas.RegionEquiv.variants_equiv", "Gofasta.Lemmas.RegionEquiv.variants_equiv_asc", "Gofasta.Lemmas.RegionEquiv.both_succeed", "Gofasta.Lemmas.RegionEquiv.annotation_equal_of_sorted", "Gofasta.Lemmas.RegionEquiv.getAAsPair_congr", "Gofasta.Lemmas.RegionEquiv.aas_equiv_weak", "Gofasta.Lemmas.GffRT.parseFeature_renderRow", "Gofasta.Lemmas.GffRT.scanLines_render", "Gofasta.Lemmas.GffRT.gff_roundtrip", "Gofasta.Lemmas.GffRT.gff_roundtrip_canonical", "Gofasta.Lemmas.GffRT.toFeature_raw_iff", "Gofasta.Lemmas.GffRT.gff_roundtrip_exact", "Gofasta.Lemmas.GffRT.gff_roundtrip_escaped_differs", "Gofasta.Lemmas.GffRT.long_line_stops_reading", "Gofasta.Lemmas.GffRT.finding_escape_not_decoded", "Gofasta.Lemmas.GffRT.finding_hyphen_in_seqid", "Gofasta.Lemmas.GffRT.finding_fasta_contigs", "Gofasta.Lemmas.GffRT.sample_roundtrip"],
+        "extra_imports": ["Gofasta.Lemmas.RegionEquiv", "Gofasta.Lemmas.GffRoundTrip", "Gofasta.Lemmas.GbRoundTrip"],
+        "extra_theorems": ["Gofasta.Lemmas.RegionEquiv.genbank_region'", "Gofasta.Lemmas.RegionEquiv.genbank_region", "Gofasta.Lemmas.RegionEquiv.gff_region", "Gofasta.Lemmas.RegionEquiv.region_equiv", "Gofasta.Lemmas.RegionEquiv.fields_equiv", "Gofasta.Lemmas.RegionEquiv.oriented_of_asc", "Gofasta.Lemmas.RegionEquiv.faithful_long", "Gofasta.Lemmas.RegionEquiv.oriented_of_asc_faithful", "Gofasta.Lemmas.RegionEquiv.genbank_annotation", "Gofasta.Lemmas.RegionEquiv.gff_annotation", "Gofasta.Lemmas.RegionEquiv.annotation_equiv", "Gofasta.Lemmas.RegionEquiv.codes_perm", "Gofasta.Lemmas.RegionEquiv.variants_perm", "Gofasta.Lemmas.RegionEquiv.variants_equiv", "Gofasta.Lemmas.RegionEquiv.variants_equiv_asc", "Gofasta.Lemmas.RegionEquiv.both_succeed", "Gofasta.Lemmas.RegionEquiv.annotation_equal_of_sorted", "Gofasta.Lemmas.RegionEquiv.getAAsPair_congr", "Gofasta.Lemmas.RegionEquiv.aas_equiv_weak", "Gofasta.Lemmas.GffRT.parseFeature_renderRow", "Gofasta.Lemmas.GffRT.scanLines_render", "Gofasta.Lemmas.GffRT.gff_roundtrip", "Gofasta.Lemmas.GffRT.gff_roundtrip_canonical", "Gofasta.Lemmas.GffRT.toFeature_raw_iff", "Gofasta.Lemmas.GffRT.gff_roundtrip_exact", "Gofasta.Lemmas.GffRT.gff_roundtrip_escaped_differs", "Gofasta.Lemmas.GffRT.long_line_stops_reading", "Gofasta.Lemmas.GffRT.finding_escape_not_decoded", "Gofasta.Lemmas.GffRT.finding_hyphen_in_seqid", "Gofasta.Lemmas.GffRT.finding_fasta_contigs", "Gofasta.Lemmas.GffRT.sample_roundtrip", "Gofasta.Lemmas.GbRT.getPositions_render", "Gofasta.Lemmas.GbRT.parse_render", "Gofasta.Lemmas.GbRT.render_parse", "Gofasta.Lemmas.GbRT.getPositions_of_parse", "Gofasta.Lemmas.GbRT.unNest_fuel", "Gofasta.Lemmas.GbRT.atoi_forget", "Gofasta.Lemmas.GbRT.parseFeatures_render", "Gofasta.Lemmas.GbRT.gb_roundtrip"],
         "cli": True,
-        "streams": {"C14": (500, 8000), "C14gff": (600, 6000)},
+        "streams": {"C14": (500, 8000), "C14gff": (600, 6000), "C14gb": (600, 6000)},
         "thorough_seeds": 3,
         "rule": "1-5 genes expressible in both formats (all five location shapes, 1-3 segments with lengths not multiples of 3, codon_start 1-3, conformant "
                 "non-zero continuation phases); a third of the cases run the GenBank form, a third the GFF form (both against model and spec), a third "
